@@ -176,19 +176,55 @@ Theorem dsis_both_rejected : forall g R ord i0 rho tmin tmax full fuel,
   basic_discrete_SIS_R g R ord (Some i0) (Some rho) tmin tmax full fuel = Fail EoNError.
 Proof. reflexivity. Qed.
 
+Lemma sample_pop_spec : forall g r0o v, In v (sample_pop g r0o) <-> In v (gnodes g) /\ ~ In v (opt_list r0o).
+Proof.
+  intros g r0o v. unfold sample_pop. destruct r0o as [l|]; cbn [opt_list].
+  - rewrite filter_In, negb_true_iff, dmem_false. tauto.
+  - cbn. tauto.
+Qed.
+
+Lemma sample_pop_NoDup : forall g r0o, NoDup (gnodes g) -> NoDup (sample_pop g r0o).
+Proof. intros g r0o H. unfold sample_pop. destruct r0o; [apply NoDup_filter|]; exact H. Qed.
+
 (* a run without initial_infecteds that returns: rho and initial_recovereds were not both given
-   (that combination is rejected), and the run is the run from an explicit duplicate-free set *)
+   (that combination is rejected); the sampled nodes are distinct nodes of the graph that are NOT
+   initially recovered, int(round(N*rho)) of them (one when rho is not given), and the run is the run
+   from that explicit set *)
 Theorem dsir_rho : forall g R trec ord r0o rho tmin tmax full fuel out, NoDup (gnodes g) ->
   reach (discrete_SIR g R trec ord None r0o rho tmin tmax full fuel) out ->
   let n := match rho with None => 1%Z | Some r => d_round_half_even (Qnat (length (gnodes g)) * r) end in
   (rho = None \/ r0o = None) /\
-  (0 <= n)%Z /\ exists i0, NoDup i0 /\ incl i0 (gnodes g) /\ Z.of_nat (length i0) = n /\
+  (0 <= n)%Z /\ exists i0, NoDup i0 /\ incl i0 (gnodes g) /\ (forall v, In v i0 -> ~ In v (opt_list r0o)) /\
+    Z.of_nat (length i0) = n /\
     reach (discrete_SIR g R trec ord (Some i0) r0o None tmin tmax full fuel) out.
 Proof.
   intros g R trec ord r0o rho tmin tmax full fuel out Hnd H. unfold discrete_SIR in H. cbv zeta.
+  assert (G : forall rho', (rho' = None \/ r0o = None) ->
+     reach (with_initial g (sample_pop g r0o) None rho' (fun l =>
+              dloop g R trec ord tmin tmax full l (opt_list r0o) fuel O tmin (init_state g tmin full l (opt_list r0o)))) out ->
+     (0 <= match rho' with None => 1%Z | Some r => d_round_half_even (Qnat (length (gnodes g)) * r) end)%Z /\
+     exists i0, NoDup i0 /\ incl i0 (gnodes g) /\ (forall v, In v i0 -> ~ In v (opt_list r0o)) /\
+       Z.of_nat (length i0) = match rho' with None => 1%Z | Some r => d_round_half_even (Qnat (length (gnodes g)) * r) end /\
+       reach (discrete_SIR g R trec ord (Some i0) r0o None tmin tmax full fuel) out).
+  { intros rho' _ Hr. destruct (with_initial_rho g _ rho' _ out (sample_pop_NoDup g r0o Hnd) Hr) as [Hn [i0 [A [B [C D]]]]].
+    split; [exact Hn|]. exists i0. split; [exact A|]. split; [intros v Hv; apply (sample_pop_spec g r0o v); apply B; exact Hv|].
+    split; [intros v Hv; apply (sample_pop_spec g r0o v); apply B; exact Hv|]. split; [exact C|].
+    unfold discrete_SIR. destruct r0o; exact D. }
   destruct rho as [r|]; [destruct r0o as [r0|]; [inversion H|]|].
-  - split; [right; reflexivity|]. exact (with_initial_rho g (Some r) _ out Hnd H).
-  - split; [left; reflexivity|]. destruct r0o; exact (with_initial_rho g None _ out Hnd H).
+  - split; [right; reflexivity|]. apply (G (Some r)); [right; reflexivity|exact H].
+  - split; [left; reflexivity|]. apply (G None); [left; reflexivity|]. destruct r0o; exact H.
+Qed.
+
+(* every node initially recovered and neither rho nor initial_infecteds: random.sample([], 1) is a
+   ValueError, in the model as in the code *)
+Theorem dsir_all_recovered_ValueError : forall g R trec ord r0 tmin tmax full fuel ds,
+  (forall v, In v (gnodes g) -> In v r0) ->
+  exists tr, exec (discrete_SIR g R trec ord None (Some r0) None tmin tmax full fuel) ds [] = (Err ValueErr, tr).
+Proof.
+  intros g R trec ord r0 tmin tmax full fuel ds H. unfold discrete_SIR. cbn [with_initial sample_pop].
+  assert (E : filter (fun u => negb (mem u r0)) (gnodes g) = []).
+  { apply InvestigationP.filter_none. intros x Hx. apply negb_false_iff. apply dmem_In. apply H. exact Hx. }
+  rewrite E. cbn. eexists. reflexivity.
 Qed.
 
 Theorem dsis_rho : forall g R ord rho tmin tmax full fuel out, NoDup (gnodes g) ->
@@ -198,7 +234,7 @@ Theorem dsis_rho : forall g R ord rho tmin tmax full fuel out, NoDup (gnodes g) 
     reach (basic_discrete_SIS_R g R ord (Some i0) None tmin tmax full fuel) out.
 Proof.
   intros g R ord rho tmin tmax full fuel out Hnd H. unfold basic_discrete_SIS_R in H.
-  exact (with_initial_rho g rho _ out Hnd H).
+  exact (with_initial_rho g (gnodes g) rho _ out Hnd H).
 Qed.
 
 (* the same for any [drun] of kind SIR (used for percolation_based_discrete_SIR) *)
